@@ -84,6 +84,11 @@ def run(case, plan, method, verbose, raise_exception, max_nfev):
     out["log"] = copy.deepcopy(testmc.FAULT["log"])
     out["count"] = testmc.FAULT["count"]
     out["inputs_unchanged"] = snapshot(scheme) == snap
+    # "the caller's scheme is untouched" also means: what is returned does not hand the caller's own objects back
+    res_ = out.get("result")
+    if res_ is not None:
+        mine = {id(p) for p in scheme.parameters.all()}
+        out["aliases_scheme_parameters"] = res_.optimized_parameters is scheme.parameters or any(id(p) in mine for p in res_.optimized_parameters.all())
     testmc.reset_fault(None)
     return out
 
@@ -183,6 +188,14 @@ def prop(c):
         tags.append("fault_not_reached")
     check(r["stdout_restored"], "always.stdout_restored", lambda: f"{c}")
     check(r["inputs_unchanged"], "always.scheme_unchanged", lambda: f"{c}")
+    check(not r.get("aliases_scheme_parameters"), "always.result_holds_the_callers_parameter_objects", lambda: f"{c}")
+    if fired and c["raise_exception"] and c["kind"] == "raise_at" and (k % 2 == 0 or "k_frac" in c):
+        # the failure that was let through must not leave anything behind in the process: a following verbose run of the same scheme
+        # still records its iterations (stdout is tee'd again)
+        after = run(case, None, c["method"], True, True, c["max_nfev"])
+        if after["outcome"] == "result" and c["method"] != "Levenberg-Marquardt":
+            hist = after["result"].optimization_history
+            check(len(getattr(hist, "data", hist)) > 0, "propagate.later_verbose_run_records_no_iterations", lambda: f"{c}")
     suffix = ".post_fit" if post_fit else ""
     if c["kind"] in ("raise_at", "raise_region") and fired:
         if c["raise_exception"]:
